@@ -3,7 +3,7 @@ import numpy as np
 from lib import common as C, het as H
 
 GEN = ['HetFacts', 'Kernels']
-IMPORTS = ['C08/kernel_weights', 'C08/lottery_1d_laws', 'C08/lottery_2d_laws', 'C08/markov_laws', 'C08/combined_shock_product_rule', 'C17/robust_bracket', 'C17/coord_reproduces_query', 'C17/monotone_equals_robust']
+IMPORTS = ['C08/kernel_weights', 'C08/lottery_1d_laws', 'C08/lottery_2d_laws', 'C08/markov_laws', 'C08/multidim_index_algebra', 'C08/combined_shock_product_rule', 'C17/robust_bracket', 'C17/coord_reproduces_query', 'C17/monotone_equals_robust']
 TRUSTED = ['smoothness of the user backward functions away from kinks', 'transitions and their exact linearisation (C08), nonlinear recursions (C09)']
 ASSUMPTIONS = ['proved: fake-news construction = direct linear recursion for every (t, s) in an abstract linear system whose hypotheses (adjointness, mass preservation, '
                'zero-mass shocks) are the C08 theorems; J_from_F closed form; source facts of the pipeline and the differentiation dispatch. NOT proved: that the numerical '
